@@ -38,17 +38,17 @@ package output
 //@   ensures result != nil
 //@ func (TaskOutput).Start
 //@   requires o.decorator != nil
-//@   modifies *
+//@   modifies baseCockpit.*, spinner.Spinner.*
 //@ func (TaskOutput).Finish
 //@   requires o.decorator != nil
-//@   modifies *
+//@   modifies baseCockpit.*, spinner.Spinner.*
 
 // the decorator interface as used by TaskOutput: header/footer may be called in any order
 // (Run calls Finish also when Start was never reached)
 //@ func DecoratedOutputWriter.WriteHeader
-//@   modifies *
+//@   modifies baseCockpit.*, spinner.Spinner.*
 //@ func DecoratedOutputWriter.WriteFooter
-//@   modifies *
+//@   modifies baseCockpit.*, spinner.Spinner.*
 
 //@ func (*rawOutputDecorator).Write
 //@   requires rawOK(d)
@@ -63,34 +63,34 @@ package output
 //@   nomod
 //@ func (*prefixedOutputDecorator).WriteFooter
 //@   requires prefixedOK(d)
-//@   modifies *
+//@   nomod
 //@ func (*cockpitOutputDecorator).Write
 //@   nomod
 //@   ensures #C19.cockpit-swallows result == len(p) && result#1 == nil
 //@ func (*cockpitOutputDecorator).WriteHeader
 //@   requires cockpitOK(d)
-//@   modifies *
+//@   modifies baseCockpit.*, spinner.Spinner.*
 //@ func (*cockpitOutputDecorator).WriteFooter
 //@   requires cockpitOK(d)
-//@   modifies *
+//@   modifies baseCockpit.*, spinner.Spinner.*
 //@   callsite remove
 //@     assumepre forall i int, j int :: 0 <= i && i < j && j < len(d.b.tasks) ==> !(d.b.tasks[i] == d.t && d.b.tasks[j] == d.t) // a task object is started at most once at a time (typestate of TaskOutput, not expressible through the decorator interface)
 //@ func (*baseCockpit).add
 //@   requires b != nil && t != nil
-//@   modifies *
+//@   modifies baseCockpit.*, spinner.Spinner.*
 // remove: t occurs at most once in the list of running tasks (every task object is started at most
 // once at a time); with a duplicate the in-place deletion inside the range loop would slice out of range
 //@ func (*baseCockpit).remove
 //@   requires b != nil && t != nil
 //@   requires #no-duplicate forall i int, j int :: 0 <= i && i < j && j < len(b.tasks) ==> !(b.tasks[i] == t && b.tasks[j] == t)
-//@   modifies *
+//@   modifies baseCockpit.*, spinner.Spinner.*
 //@   loop 1 "range b.tasks"
 //@     invariant #same b == b0 && t == t0 && b != nil && t != nil
 //@     invariant #list-intact (forall i int :: 0 <= i && i <= rangeindex ==> old(b.tasks)[i] != t) ==> b.tasks == old(b.tasks)
 //@     invariant #elements forall i int :: 0 <= i && i < len(old(b.tasks)) ==> old(b.tasks)[i] == old(b.tasks[i])
 //@ func (*baseCockpit).start
 //@   requires b != nil
-//@   modifies *
+//@   modifies spinner.Spinner.*
 //@   ensures result != nil
 
 // prefixed output: Write is a driver of bufio.ScanLines — every token goes through the line
